@@ -22,7 +22,9 @@
 
   The world is: `configuration.processes`, `configuration.neighbors` (a dict, by name), the RIBs of
   `RIB._cache` by name together with the transmission state of the session consuming them (an
-  M-Rib `Sess`), the peers of `reactor._peers`.  (Before f9a9367 a failed reload left the parser
+  M-Rib `Sess`), the peers of `reactor._peers`, and `pending` = `ParseNeighbor._attach`, the
+  neighbor sections parsed and not yet bound to their RIB (it outlives a reload only if nobody
+  empties it: `ParseNeighbor.clear()`, called by `_cleanup()`, and `attach_ribs()` do).  (Before f9a9367 a failed reload left the parser
   uncleaned and the world carried a `dirty` flag; `_abort_reload` cleans it on every path now.)
 
   Stages of a reload (as of /repo commits f9a9367 and 1a8ae65):
@@ -94,9 +96,10 @@ structure World where
   nbrs  : AList Nat Nbr       -- configuration.neighbors
   ribs  : AList Nat Sess      -- RIB._cache by neighbor name (+ the session transmitting it)
   peers : AList Nat PeerSt    -- reactor._peers
+  pending : List Nbr := []    -- ParseNeighbor._attach
 deriving DecidableEq, Repr
 
-def World.init : World := { procs := [], nbrs := [], ribs := [], peers := [] }
+def World.init : World := { procs := [], nbrs := [], ribs := [], peers := [], pending := [] }
 
 /-! ### commit stage: `attach_ribs()` for one neighbor -/
 
@@ -139,20 +142,25 @@ deriving DecidableEq, Repr
 
 def toDict (ns : List Nbr) : AList Nat Nbr := ns.foldl (fun d n => AList.insert n.name n d) []
 
-/-- `attach_ribs()`: every neighbor of the accepted file, in file order. -/
+/-- Binding a list of neighbor sections to their RIBs, in order. -/
 def parseAll (w : World) (ns : List Nbr) : World := ns.foldl parseNbr w
 
-/-- `_clear()`: what is saved is the first component. -/
+/-- `attach_ribs()`: everything in `_attach` — the sections of this file, preceded by whatever an
+    earlier parse left there — is bound to its RIB and the list is emptied. -/
+def attachRibs (w : World) : World := { parseAll w w.pending with pending := [] }
+
+/-- `_clear()`: what is saved is the first component.  (`_attach` is not touched.) -/
 def clearStage (w : World) : (AList Nat Nbr × List Nat) × World :=
   ((w.nbrs, w.procs), { w with procs := [], nbrs := [] })
 
-/-- Parsing `k` neighbor sections: Neighbor objects are built, the world is not touched
-    (`post()` only records them; RIBs are attached at the commit). -/
-def parseStage (w : World) (_parsed : List Nbr) : World := w
+/-- Parsing neighbor sections: Neighbor objects are built and recorded in `_attach`
+    (`post()` → `_init_neighbor`); RIBs are not touched. -/
+def parseStage (w : World) (parsed : List Nbr) : World := { w with pending := w.pending ++ parsed }
 
-/-- `_abort_reload()`: `_rollback_reload` (neighbors and processes as saved) + `_cleanup`. -/
+/-- `_abort_reload()`: `_rollback_reload` (neighbors and processes as saved) + `_cleanup`
+    (`ParseNeighbor.clear()` forgets the sections of the file that failed). -/
 def abortStage (saved : AList Nat Nbr × List Nat) (w : World) : World :=
-  { w with nbrs := saved.1, procs := saved.2 }
+  { w with nbrs := saved.1, procs := saved.2, pending := [] }
 
 /-- `Configuration.reload()`: the new world and the verdict. -/
 def cfgReload (w : World) (c : Config) (f : Option Fault) : World × Bool :=
@@ -169,7 +177,7 @@ def cfgReload (w : World) (c : Config) (f : Option Fault) : World × Bool :=
     (abortStage r.1 (parseStage r.2 (c.nbrs.take k)), false)
   | none =>
     let r := clearStage w
-    ({ parseAll (parseStage r.2 c.nbrs) c.nbrs with procs := c.procs, nbrs := toDict c.nbrs }, true)
+    ({ attachRibs (parseStage r.2 c.nbrs) with procs := c.procs, nbrs := toDict c.nbrs }, true)
 
 /-! ### stage (d): `Reactor.reload()` -/
 
